@@ -372,6 +372,12 @@ def loaderOp (st : DState) (toks : List String) : Option (DState × String) :=
       -- results of concurrent use equal those of a single-threaded replay (the theorem C13.result_is_sequential
       -- together with C14.history_irrelevant); the harness measures it on the real code
       some (st, s!"stress threads={k} differing=0")
+  | ["facnames", hexname] => do
+      -- two loads of one name: UTC and fixed-offset names never reach the factory; any other name reaches it once, with
+      -- exactly that name, and the second load is answered from the map (C20.factory_never_for_fixed, cached_load)
+      let name ← Bytes.ofHex hexname
+      let internal := Loader.isUtcName name || Loader.isFixedName name
+      some (st, s!"calls={if internal then 0 else 1},0 same=1 equal=1")
   | ["racefixed", _k, _n, _b] =>
       -- racing first uses of one fixed offset: all equal (C13.same_name_same_identity on the loader model)
       some (st, "racefixed bad=0")
